@@ -1,10 +1,15 @@
 //! Deterministic-simulation harness for lc3-ensemble. See /verif/DESIGN.md.
 #![allow(clippy::too_many_arguments, clippy::type_complexity, clippy::new_without_default)]
 
+mod c13;
 mod c16;
 mod entropy;
 mod env;
 mod genr;
+mod lockstep;
+mod mchecks;
+mod mgen;
+mod model;
 mod mworld;
 mod rng;
 mod runner;
@@ -47,7 +52,7 @@ fn drive<C: Check>(c: &C, args: &[String]) -> i32 {
 
 macro_rules! checks {
     ($mac:ident) => {
-        $mac!(("C16", c16::C16));
+        $mac!(("C08", mchecks::C08), ("C09", mchecks::C09), ("C10a", mchecks::C10A), ("C13", c13::C13 { observer_arm: false }), ("C16", c16::C16), ("C27", mchecks::C27), ("C28", mchecks::C28), ("C28b", c13::C13 { observer_arm: true }));
     };
 }
 
